@@ -2177,8 +2177,17 @@ def lex_tokens(line):
         tokens = ['string', value]
         return LineTokens(line, tokens)
 
+    # replace character literals with their integer value before any stripping / splitting
+    # (the character might be a '#', ',', '(' or ')' which would otherwise be eaten below)
+    def char_value(match):
+        try:
+            return str(ord(match.group(1).encode('utf-8').decode('unicode_escape')))
+        except (TypeError, ValueError):
+            return match.group(0)
+    contents = re.sub(r"'(\\.|[^\\])'", char_value, line.contents)
+
     # strip comments
-    contents = re.sub(r'#.*$', r'', line.contents)
+    contents = re.sub(r'#.*$', r'', contents)
 
     # pad parens before split
     contents = contents.replace('(', ' ( ').replace(')', ' ) ')
